@@ -521,3 +521,14 @@ Proof.
   - apply Nat.leb_le in E. lia.
   - inversion H; subst. reflexivity.
 Qed.
+
+(* a self-reading INSERT with one partition on a table of one full segment: after 200 scan calls the partition
+   is still not exhausted and the table has grown from 2 to more than 100 rows (every index it fetches exists
+   again because its own flushes keep pace with its reads) *)
+Lemma self_insert_growth_witness_proof :
+  exists c, run kw (self_insert [[1%N; 2%N]] 1) (repeat (LPipe 0) 200) = Some c /\ complete c = false /\
+            100 <= length (all_rows c).
+Proof.
+  eexists. split; [vm_compute; reflexivity|]. split; [vm_compute; reflexivity|].
+  apply Nat.leb_le. vm_compute. reflexivity.
+Qed.
